@@ -51,7 +51,11 @@ def run_case(ctx, rng, index, casedir):
     keys = {l.split("\t")[0]: SC.ref_tags(w.g, w.tags, l) for l in w.lines}
     by_name = {l.split("\t")[0]: l for l in w.lines}
     how = rng.choice(["plain", "bgzip", "stdout"])
-    out = os.path.join(casedir, "sorted.gaf" + (".gz" if how == "bgzip" else ""))
+    # the name of the output file and the --bgzip switch are two things: only the switch asks for compression
+    out = os.path.join(casedir, rng.choice(["sorted.gaf" + (".gz" if how == "bgzip" else ""), "sorted.gaf" + (".gz" if how == "bgzip" else ""),
+                                            "sorted.gaf.gz", "sorted.gaf", "sorted.gz", "sorted"]))
+    if out.endswith(".gz") != (how == "bgzip") and how != "stdout":
+        sit["output_name_suffix_other_than_switch"] += 1
     argv = ["sort", w.gaf, w.gfa]
     if how != "stdout":
         argv += ["--outgaf", out]
@@ -68,6 +72,13 @@ def run_case(ctx, rng, index, casedir):
     else:
         if how == "stdout":
             text = o.stdout
+        elif open(out, "rb").read(2) == b"\x1f\x8b" and how != "bgzip":
+            viol.append({"kind": "output_compressed_without_bgzip", "msg": f"sort --outgaf {os.path.basename(out)} without --bgzip wrote a gzip/BGZF file, not the text records"})
+            with gzip.open(out, "rt") as f:
+                text = f.read()
+        elif how == "bgzip" and open(out, "rb").read(2) != b"\x1f\x8b":
+            viol.append({"kind": "output_not_compressed_with_bgzip", "msg": f"sort --bgzip --outgaf {os.path.basename(out)} did not write a BGZF file"})
+            text = open(out).read()
         elif how == "bgzip":
             with gzip.open(out, "rt") as f:
                 text = f.read()
